@@ -136,6 +136,7 @@ type Case struct {
 	// method (0 = its nil value; two dynamic types)
 	Ty      string `json:"ty,omitempty"`
 	Seed    uint64 `json:"seed,omitempty"`    // yields of the conc goroutines
+	Lazy    int    `json:"lazy,omitempty"`    // conc: the last Lazy constructor calls are made while the ends are driven
 	Barrier bool   `json:"barrier,omitempty"` // conc: the leaves call Close at the same instant (bounded spin barrier)
 	Reps    int    `json:"reps,omitempty"`    // conc: drive the same tree this many times (storm case)
 }
@@ -225,6 +226,9 @@ func (engine) Decode(raw json.RawMessage) (any, error) {
 	}
 	if c.Mode != "seq" && c.Mode != "conc" {
 		return nil, fmt.Errorf("bad mode %q", c.Mode)
+	}
+	if c.Lazy < 0 || c.Lazy > len(c.Ops) || (c.Lazy > 0 && (c.Mode != "conc" || c.Barrier)) {
+		return nil, fmt.Errorf("bad lazy %d", c.Lazy)
 	}
 	okTy := false
 	for _, t := range chunkTypes {
